@@ -45,17 +45,22 @@ pub fn strategy() -> BoxedStrategy<Case> {
         prop::option::weighted(0.6, (aud_nonce_strategy(), aud_nonce_strategy())),
     )
         .prop_map(|(mut issue, exp, nbf, ch, kb)| {
-            // nbf must stay visible: NoSD, or Custom without a path naming it
+            // nbf must stay visible for the nbf clause to be asserted: Custom strategies never list
+            // it; TopLevel / AllLevels (which hide it) are only combined with nbf absent
+            let mut nbf = nbf;
             issue.strat = match issue.strat {
                 Strat::Custom(paths) => Strat::Custom(paths.into_iter().filter(|p| parse_path(p) != PathParse::Names(vec![Seg::K("nbf".into())])).collect()),
-                _ => Strat::NoSD,
+                other => other,
             };
+            if matches!(issue.strat, Strat::TopLevel | Strat::AllLevels) {
+                nbf = NbfSpec::Absent;
+            }
             // the selection must be derived from the claims as they will be issued w.r.t. members
             // (exp/nbf are scalars: presence does not matter for type-consistency of other members)
             let mut selection = selection_for(&issue, &ch, SelOpts { allow_null: false });
             selection.remove("exp");
             selection.remove("nbf");
-            let kb = if issue.holder.is_some() { kb.map(|(aud, nonce)| KbArgs { aud, nonce, key: issue.holder }) } else { None };
+            let kb = if issue.holder.is_some() { kb.map(|(aud, nonce)| KbArgs { default_alg: nonce.chars().count() % 2 == 1, aud, nonce, key: issue.holder }) } else { None };
             C09Case { issue, exp, nbf, selection, kb }
         })
         .boxed()
